@@ -15,7 +15,7 @@ Hypothesis Hok : ctor_ok RN c p = true.
 Let dt := step_time RN p.
 Let Rt := refrac_t RN p.
 
-Definition bounded (cs : list (column RN)) : Prop := all_cells (fun ce => 0 <= snd ce <= refrac_t RN p) cs.
+Local Notation bounded := (bounded p).
 
 Lemma all_cells_and P Q cs : all_cells P cs -> all_cells Q cs -> all_cells (fun ce => P ce /\ Q ce) cs.
 Proof.
@@ -207,4 +207,93 @@ Proof.
     rewrite Forall_map. apply Forall_forall. intros a _. reflexivity.
   - intros ->. rewrite map_map. cbn [ad negb]. rewrite andb_false_r. reflexivity.
   - rewrite map_map. cbn [cells]. apply map_ext. intros col. apply map_length.
+Qed.
+
+(* ------------------------------------------------------------------ leaky integrators under a constant drive *)
+(* For the four classes with the linear integrator, a cell that is out of its refractory period and receives a
+   constant input x under a constant threshold th follows the ANALYTIC solution of the leaky integrator
+       u(k) = (v0 - rest - R x) exp(-k dt / tau) + rest + R x
+   step by step for as long as u stays below th, without spiking; and it spikes (reset, refrac = refrac_t) at the
+   first step k at which u(k) >= th.  So the first-spike time of the model is the analytic threshold-crossing time
+   rounded up to the grid. *)
+Lemma linear_cls_integ c p v x : linear_cls c ->
+  cls_integ RN c p v x
+  = voltage_integration_linear RN x v (step_time RN p) (time_constant RN p) (rest_v RN p) (resistance RN p).
+Proof. intros [-> | [-> | [-> | ->]]]; reflexivity. Qed.
+
+Lemma lin_u_step p v0 x k :
+  voltage_integration_linear RN x (lin_u p v0 x k) (step_time RN p) (time_constant RN p) (rest_v RN p) (resistance RN p)
+  = lin_u p v0 x (S k).
+Proof.
+  unfold lin_u. rewrite integration_linear_formula, S_INR.
+  replace (- ((INR k + 1) * step_time RN p) / time_constant RN p)
+    with (- (INR k * step_time RN p) / time_constant RN p + - step_time RN p / time_constant RN p) by (unfold Rdiv; ring).
+  rewrite exp_plus. rn_simpl. ring.
+Qed.
+
+Lemma lin_u_0 p v0 x : lin_u p v0 x 0 = v0.
+Proof.
+  unfold lin_u. cbn [INR]. replace (- (0 * step_time RN p) / time_constant RN p) with 0 by (unfold Rdiv; ring).
+  rewrite exp_0. rn_simpl. ring.
+Qed.
+
+Lemma last_cons_default {A} (l : list A) (a d : A) : last (a :: l) d = last l a.
+Proof.
+  revert a d. induction l as [|b l IH]; intros a d; [reflexivity|].
+  change (last (a :: b :: l) d) with (last (b :: l) d). rewrite (IH b d), (IH b a). reflexivity.
+Qed.
+
+Theorem linear_constant_drive_run :
+  forall c p, linear_cls c -> forall (lock : bool) (th x : R) (n : nat) (v0 r0 : R) (k0 : nat),
+    r0 - step_time RN p <= 0 -> 0 < step_time RN p ->
+    (forall k, (1 <= k <= n)%nat -> lin_u p v0 x (k0 + k) < th) ->
+    cell_run c p (lin_u p v0 x k0, r0) (repeat (lock, th, x) n)
+    = map (fun k => (false, lin_u p v0 x (k0 + k), 0)) (seq 1 n).
+Proof.
+  intros c p Hc lock th x n. induction n as [|n IH]; intros v0 r0 k0 Hr Hdt Hsub; [reflexivity|].
+  cbn [repeat cell_run]. rewrite cls_cell_spec. unfold thr_spec.
+  destruct (Rle_dec (r0 - step_time RN p) 0) as [_|Hn]; [|contradiction].
+  rewrite linear_cls_integ by exact Hc. rewrite lin_u_step.
+  assert (H1 : lin_u p v0 x (S k0) < th) by (replace (S k0) with (k0 + 1)%nat by lia; apply Hsub; lia).
+  destruct (Rle_dec th (lin_u p v0 x (S k0))) as [Hle|_]; [lra|].
+  change (seq 1 (S n)) with (1%nat :: seq 2 n). cbn [map]. replace (k0 + 1)%nat with (S k0) by lia. f_equal.
+  unfold o_cell, o_v, o_r. cbn [fst snd].
+  transitivity (map (fun k => (false, lin_u p v0 x (S k0 + k), 0)) (seq 1 n)).
+  - apply (IH v0 0 (S k0)); [lra | exact Hdt |].
+    intros k Hk. replace (S k0 + k)%nat with (k0 + S k)%nat by lia. apply Hsub. lia.
+  - rewrite <- (seq_shift n 1), map_map. apply map_ext. intros k. f_equal. f_equal. f_equal. lia.
+Qed.
+
+(* ... and the (n+1)-th step spikes when the analytic solution has reached the threshold *)
+Theorem linear_first_spike :
+  forall c p, linear_cls c -> forall (lock : bool) (th x : R) (n : nat) (v0 r0 : R),
+    r0 - step_time RN p <= 0 -> 0 < step_time RN p ->
+    (forall k, (1 <= k <= n)%nat -> lin_u p v0 x k < th) -> th <= lin_u p v0 x (S n) ->
+    cell_run c p (v0, r0) (repeat (lock, th, x) (S n))
+    = map (fun k => (false, lin_u p v0 x k, 0)) (seq 1 n)
+      ++ [(true, reset_of c p (lin_u p v0 x (S n)), refrac_t RN p)].
+Proof.
+  intros c p Hc lock th x n v0 r0 Hr Hdt Hsub Hcross.
+  replace (S n) with (n + 1)%nat at 1 by lia. rewrite repeat_app.
+  assert (Happ : forall evs1 evs2 ce, cell_run c p ce (evs1 ++ evs2)
+            = cell_run c p ce evs1 ++ cell_run c p (last (map (o_cell RN) (cell_run c p ce evs1)) ce) evs2).
+  { induction evs1 as [|[[l t] y] tl IH]; intros evs2 ce; [reflexivity|].
+    cbn [app cell_run map]. f_equal. rewrite IH. f_equal. f_equal.
+    symmetry. apply last_cons_default. }
+  rewrite Happ.
+  assert (Hrun : cell_run c p (v0, r0) (repeat (lock, th, x) n) = map (fun k => (false, lin_u p v0 x k, 0)) (seq 1 n)).
+  { pose proof (linear_constant_drive_run c p Hc lock th x n v0 r0 0 Hr Hdt) as H. rewrite lin_u_0 in H.
+    apply H. intros k Hk. cbn [Nat.add]. apply Hsub. exact Hk. }
+  rewrite Hrun. f_equal.
+  (* the state after n silent steps *)
+  assert (Hlast : exists rn, rn - step_time RN p <= 0 /\
+            last (map (o_cell RN) (map (fun k => (false, lin_u p v0 x k, 0)) (seq 1 n))) (v0, r0) = (lin_u p v0 x n, rn)).
+  { destruct n as [|n].
+    - exists r0. split; [exact Hr|]. cbn [seq map last]. rewrite lin_u_0. reflexivity.
+    - exists 0. split; [lra|]. rewrite seq_S, !map_app. cbn [map]. rewrite last_last. reflexivity. }
+  destruct Hlast as (rn & Hrn & ->).
+  cbn [repeat cell_run]. rewrite cls_cell_spec. unfold thr_spec.
+  destruct (Rle_dec (rn - step_time RN p) 0) as [_|Hn]; [|contradiction].
+  rewrite linear_cls_integ by exact Hc. rewrite lin_u_step.
+  destruct (Rle_dec th (lin_u p v0 x (S n))) as [_|Hn]; [reflexivity|contradiction].
 Qed.
